@@ -141,7 +141,7 @@ Proof.
     destruct Hp as [Hpc|[[[k Hpc]|[w [k Hpc]]] Htne]]; rewrite Hpc.
     + destruct (todo (ls t)) as [|op rest] eqn:Htd.
       { constructor; rewrite ?Hx; auto. apply Hoth. exact (sc_others0 t Hne). }
-      inversion Hf as [|? ? Hop Hrest]; subst. destruct op as [| | | |n| | | |w0]; cbn in Hop; try contradiction;
+      inversion Hf as [|? ? Hop Hrest]; subst. destruct op as [| | | |n| | | | | |w0]; cbn in Hop; try contradiction;
         [|cbn [fst snd];
           assert (Hl : rel_local (done_l (ls t))) by (split; [cbn; rewrite Htd; exact Hrest|now left]);
           destruct (kind w0); constructor; cbn; rewrite ?Hx; auto; apply Hoth; exact Hl].
